@@ -1,42 +1,297 @@
 (* ValuesThm.v — proofs about Values.v / PyEval.v (C13, C14). *)
-From Coq Require Import NArith ZArith List Bool Lia.
+From Coq Require Import NArith ZArith List Bool Lia ZifyBool.
 Import ListNotations.
 Require Import OPC.gen.GenTables OPC.Uni OPC.Names OPC.NamesThm OPC.PyLit OPC.PyLitThm OPC.Values OPC.PyEval.
 Open Scope N_scope.
 
-(* STATEMENTS TO PROVE (keep the statements exactly as written):
+(* never compute the table-driven functions on variables *)
+#[local] Opaque printable upper lower snake_case c_isalpha.
+
+(* ================= decimal printing / parsing ================= *)
+
+Lemma digit_lt n : n mod 10 < 10.
+Proof. apply N.mod_lt. discriminate. Qed.
+
+Lemma is_digit_dig n : is_digit (48 + n mod 10) = true.
+Proof.
+  pose proof (digit_lt n) as H. set (m := n mod 10) in *. clearbody m.
+  unfold is_digit. apply andb_true_intro. split; apply N.leb_le; lia.
+Qed.
+
+Lemma dig_sub n : 48 + n mod 10 - 48 = n mod 10.
+Proof. set (m := n mod 10). clearbody m. lia. Qed.
+
+Lemma parse_dec_cons c s a :
+  parse_dec (c :: s) a = if is_digit c then parse_dec s (a * 10 + (c - 48)) else None.
+Proof. reflexivity. Qed.
+
+Lemma dec_pos_fuel_S f n acc :
+  dec_pos_fuel (S f) n acc =
+  if n / 10 =? 0 then (48 + n mod 10) :: acc else dec_pos_fuel f (n / 10) ((48 + n mod 10) :: acc).
+Proof. reflexivity. Qed.
+
+Lemma div10_zero n : n / 10 = 0 -> n mod 10 = n.
+Proof.
+  intros H. apply N.mod_small. apply N.div_small_iff in H; [exact H | discriminate].
+Qed.
+
+Lemma div10_bound n q : n < 2 * (2 * q) -> n / 10 < 2 * q.
+Proof.
+  intros H. apply N.div_lt_upper_bound; [discriminate | lia].
+Qed.
+
+Lemma pow_fuel_S f : 2 * 2 ^ N.of_nat (S f) = 2 * (2 * 2 ^ N.of_nat f).
+Proof. rewrite Nat2N.inj_succ, N.pow_succ_r'. reflexivity. Qed.
+
+Lemma parse_dec_last n acc :
+  parse_dec ((48 + n mod 10) :: acc) (n / 10) = parse_dec acc n.
+Proof.
+  rewrite parse_dec_cons, is_digit_dig, dig_sub. f_equal.
+  pose proof (N.div_mod n 10) as H. lia.
+Qed.
+
+Lemma parse_dec_fuel : forall f n acc, n < 2 * 2 ^ N.of_nat f ->
+  parse_dec (dec_pos_fuel (S f) n acc) 0 = parse_dec acc n.
+Proof.
+  induction f as [|f IH]; intros n acc Hn; rewrite dec_pos_fuel_S.
+  - change (2 * 2 ^ N.of_nat 0) with 2 in Hn.
+    assert (E : n / 10 = 0) by (apply N.div_small; lia).
+    rewrite E. change (0 =? 0) with true. cbv iota.
+    rewrite <- E at 1. apply parse_dec_last.
+  - destruct (N.eqb_spec (n / 10) 0) as [E|NE].
+    + rewrite <- E at 1. apply parse_dec_last.
+    + rewrite IH; [apply parse_dec_last|].
+      rewrite pow_fuel_S in Hn. apply div10_bound. exact Hn.
+Qed.
+
+Lemma dec_pos_fuel_head : forall f n acc, n <> 0 -> n < 2 * 2 ^ N.of_nat f ->
+  exists c r, dec_pos_fuel (S f) n acc = c :: r /\ 49 <= c <= 57.
+Proof.
+  assert (Small : forall n, n <> 0 -> n / 10 = 0 -> 49 <= 48 + n mod 10 <= 57).
+  { intros n Hn E. rewrite (div10_zero n E).
+    apply N.div_small_iff in E; [lia | discriminate]. }
+  induction f as [|f IH]; intros n acc Hn0 Hn; rewrite dec_pos_fuel_S.
+  - change (2 * 2 ^ N.of_nat 0) with 2 in Hn.
+    assert (E : n / 10 = 0) by (apply N.div_small; lia).
+    rewrite E. change (0 =? 0) with true. cbv iota.
+    exists (48 + n mod 10), acc. split; [reflexivity | apply Small; assumption].
+  - destruct (N.eqb_spec (n / 10) 0) as [E|NE].
+    + exists (48 + n mod 10), acc. split; [reflexivity | apply Small; assumption].
+    + apply IH; [exact NE|]. rewrite pow_fuel_S in Hn. apply div10_bound. exact Hn.
+Qed.
+
+Lemma dec_N_fuel_ok n : n < 2 * 2 ^ N.of_nat (N.to_nat (N.size n)).
+Proof. rewrite N2Nat.id. pose proof (N.size_gt n) as H. lia. Qed.
+
+Lemma parse_dec_dec_N n : parse_dec (dec_N n) 0 = Some n.
+Proof. unfold dec_N. rewrite parse_dec_fuel; [reflexivity | apply dec_N_fuel_ok]. Qed.
+
+Lemma dec_N_head n : n <> 0 -> exists c r, dec_N n = c :: r /\ 49 <= c <= 57.
+Proof. intros H. unfold dec_N. apply dec_pos_fuel_head; [exact H | apply dec_N_fuel_ok]. Qed.
+
+Lemma parse_nat_lit_ne48 c r : c <> 48 -> parse_nat_lit (c :: r) = parse_dec (c :: r) 0.
+Proof.
+  intros H. unfold parse_nat_lit.
+  destruct c as [|p]; [reflexivity|].
+  do 6 (try (destruct p as [p|p|]; try reflexivity)).
+  all: try (exfalso; apply H; reflexivity).
+Qed.
+
+Lemma parse_int_ne45 c r : c <> 45 ->
+  parse_int (c :: r) = match parse_nat_lit (c :: r) with Some n => Some (Z.of_N n) | None => None end.
+Proof.
+  intros H. unfold parse_int.
+  destruct c as [|p]; [reflexivity|].
+  do 6 (try (destruct p as [p|p|]; try reflexivity)).
+  all: try (exfalso; apply H; reflexivity).
+Qed.
+
+Lemma parse_int_neg r :
+  parse_int (45 :: r) = match parse_nat_lit r with Some n => Some (- Z.of_N n)%Z | None => None end.
+Proof. reflexivity. Qed.
+
+Lemma parse_nat_lit_dec_N p : parse_nat_lit (dec_N (Npos p)) = Some (Npos p).
+Proof.
+  destruct (dec_N_head (Npos p)) as (c & r & E & Hc); [discriminate|].
+  pose proof (parse_dec_dec_N (Npos p)) as P. rewrite E in P |- *.
+  rewrite parse_nat_lit_ne48; [exact P | lia].
+Qed.
 
 (* decimal printing and parsing are inverse; hence printing is injective *)
 Theorem parse_int_dec_Z : forall z, parse_int (dec_Z z) = Some z.
-Theorem dec_Z_inj : forall a b, dec_Z a = dec_Z b -> a = b.
-Theorem int_code_evals : forall z, eval_code (dec_Z z) = Some (PVInt z).
+Proof.
+  intros [|p|p]; unfold dec_Z.
+  - reflexivity.
+  - pose proof (parse_nat_lit_dec_N p) as P.
+    destruct (dec_N_head (Npos p)) as (c & r & E & Hc); [discriminate|].
+    rewrite E in P |- *. rewrite parse_int_ne45; [|lia]. rewrite P. reflexivity.
+  - rewrite parse_int_neg, parse_nat_lit_dec_N. reflexivity.
+Qed.
 
-(* C13 default_sound / default_complete, integer kind *)
+Theorem dec_Z_inj : forall a b, dec_Z a = dec_Z b -> a = b.
+Proof.
+  intros a b H. pose proof (parse_int_dec_Z a) as Ha. rewrite H, parse_int_dec_Z in Ha. congruence.
+Qed.
+
+Lemma dec_Z_head z : exists c r, dec_Z z = c :: r /\ (c = 45 \/ 48 <= c <= 57).
+Proof.
+  destruct z as [|p|p]; unfold dec_Z.
+  - exists 48, []. split; [reflexivity | lia].
+  - destruct (dec_N_head (Npos p)) as (c & r & E & Hc); [discriminate|].
+    exists c, r. split; [exact E | lia].
+  - exists 45, (dec_N (Npos p)). split; [reflexivity | lia].
+Qed.
+
+Lemma str_eqb_head_ne c r d t : c <> d -> str_eqb (c :: r) (d :: t) = false.
+Proof. intros H. cbn [str_eqb]. rewrite (proj2 (N.eqb_neq c d) H). reflexivity. Qed.
+
+Theorem int_code_evals : forall z, eval_code (dec_Z z) = Some (PVInt z).
+Proof.
+  intros z. unfold eval_code. rewrite parse_int_dec_Z.
+  destruct (dec_Z_head z) as (c & r & E & Hc). rewrite E.
+  unfold s_True, s_False, s_None.
+  rewrite !str_eqb_head_ne by lia. reflexivity.
+Qed.
+
+(* ================= C13: integer kind ================= *)
+
 Theorem conv_int_sound : forall o v x,
   conv_int o v = Ok (Some x) -> exists z, int_meaning o v = Some z /\ eval_code (code x) = Some (PVInt z) /\ raw x = v.
+Proof.
+  intros o v x H.
+  assert (IOF : forall f, int_of_float v f = Ok (Some x) ->
+            f_finite f = true /\ exists z, f_int f = Some z /\ code x = dec_Z z /\ raw x = v).
+  { intros f Hf. unfold int_of_float in Hf.
+    destruct (f_finite f); cbn [negb] in Hf; [|discriminate].
+    destruct (f_int f) as [z|]; [|discriminate].
+    injection Hf as <-. split; [reflexivity|]. exists z. cbn [code raw]. auto. }
+  destruct v as [|b|z|f|s|s]; cbn [conv_int] in H; try discriminate.
+  - injection H as <-. exists z. cbn [int_meaning code raw]. rewrite int_code_evals. auto.
+  - apply IOF in H as (Hf & z & Hz & Hc & Hr). exists z. cbn [int_meaning].
+    rewrite Hf, Hz, Hc, int_code_evals. auto.
+  - destruct (parse_float o s) as [f|] eqn:E; [|discriminate].
+    apply IOF in H as (Hf & z & Hz & Hc & Hr). exists z. cbn [int_meaning].
+    rewrite E, Hf, Hz, Hc, int_code_evals. auto.
+Qed.
+
 Theorem conv_int_complete : forall o v,
   v <> JNull -> int_meaning o v = None -> conv_int o v = Err \/ conv_int o v = Crash.
-Theorem conv_int_crash_refuted : exists o v, conv_int o v = Crash.
+Proof.
+  intros o v Hv H.
+  assert (IOF : forall f, (if f_finite f then f_int f else None) = None ->
+            int_of_float v f = Err \/ int_of_float v f = Crash).
+  { intros f Hf. unfold int_of_float. destruct (f_finite f); cbn [negb]; [|right; reflexivity].
+    rewrite Hf. left; reflexivity. }
+  destruct v as [|b|z|f|s|s]; cbn [conv_int int_meaning] in *.
+  - congruence.
+  - left; reflexivity.
+  - discriminate.
+  - apply IOF. exact H.
+  - destruct (parse_float o s) as [f|]; [apply IOF; exact H | left; reflexivity].
+  - left; reflexivity.
+Qed.
 
-(* boolean kind *)
+Definition dummy_oracles : oracles :=
+  {| parse_float := fun _ => Some {| f_tok := [105;110;102]; f_int := None; f_finite := false |};
+     float_of_int := fun _ => None;
+     isoparse_ok := fun _ => false;
+     uuid_ok := fun _ => false |}.
+
+Theorem conv_int_crash_refuted : exists o v, conv_int o v = Crash.
+Proof.
+  exists dummy_oracles, (JFloat {| f_tok := [105;110;102]; f_int := None; f_finite := false |}).
+  reflexivity.
+Qed.
+
+(* ================= boolean kind ================= *)
+
+Lemma eval_True : eval_code s_True = Some (PVBool true).
+Proof. reflexivity. Qed.
+Lemma eval_False : eval_code s_False = Some (PVBool false).
+Proof. reflexivity. Qed.
+
 Theorem conv_bool_sound : forall v x,
   conv_bool v = Ok (Some x) -> exists b, bool_meaning v = Some b /\ eval_code (code x) = Some (PVBool b).
-Theorem conv_bool_complete : forall v, v <> JNull -> bool_meaning v = None -> conv_bool v = Err.
+Proof.
+  intros v x H. destruct v as [|b|z|f|s|s]; cbn [conv_bool bool_meaning] in *; try discriminate.
+  - injection H as <-. exists b. cbn [code]. split; [reflexivity|].
+    destruct b; [apply eval_True | apply eval_False].
+  - destruct (str_eqb (lower s) s_true).
+    + injection H as <-. exists true. split; [reflexivity | apply eval_True].
+    + destruct (str_eqb (lower s) s_false); [|discriminate].
+      injection H as <-. exists false. split; [reflexivity | apply eval_False].
+Qed.
 
-(* string kind: under the guard (printable, no double quote) the emitted literal evaluates to the text itself *)
+Theorem conv_bool_complete : forall v, v <> JNull -> bool_meaning v = None -> conv_bool v = Err.
+Proof.
+  intros v Hv H. destruct v as [|b|z|f|s|s]; cbn [conv_bool bool_meaning] in *;
+    try congruence; try reflexivity.
+  destruct (str_eqb (lower s) s_true); [discriminate|].
+  destruct (str_eqb (lower s) s_false); [discriminate|]. reflexivity.
+Qed.
+
+(* ================= string kind ================= *)
+
+Lemma escape_dq_id : forall s, existsb (N.eqb DQ) s = false -> escape_dq s = s.
+Proof.
+  induction s as [|c s IH]; intros H; [reflexivity|].
+  cbn [existsb] in H. apply orb_false_iff in H as [Hc Hs].
+  rewrite escape_dq_cons, (IH Hs).
+  rewrite N.eqb_sym in Hc. change DQ with 34 in Hc. rewrite Hc. reflexivity.
+Qed.
+
 Theorem conv_string_sound : forall s x,
   repr_printable s = true -> existsb (N.eqb DQ) s = false ->
   conv_string (JStr s) = Ok (Some x) -> lex_string (code x) = Some (s, []).
+Proof.
+  intros s x Hp Hq H. cbn [conv_string py_str] in H. injection H as <-. cbn [code].
+  rewrite (escape_dq_id s Hq). apply repr_roundtrip_printable. exact Hp.
+Qed.
+
 Theorem conv_string_dq_refuted : exists s x,
   conv_string (JStr s) = Ok (Some x) /\ lex_string (code x) <> Some (s, []).
+Proof.
+  exists [34], {| code := py_repr (escape_dq [34]); raw := JStr [34] |}.
+  split; [reflexivity|]. vm_compute. discriminate.
+Qed.
 
-(* float kind: the emitted code is the float's str() token, whatever it is (inf / nan are not literals) *)
+(* ================= float kind ================= *)
+
 Theorem conv_float_token : forall o v x, conv_float o v = Ok (Some x) ->
   exists f, code x = f_tok f.
+Proof.
+  intros o v x H. destruct v as [|b|z|f|s|s]; cbn [conv_float] in H; try discriminate.
+  - destruct (float_of_int o z) as [f|]; [|discriminate]. injection H as <-. exists f. reflexivity.
+  - injection H as <-. exists f. reflexivity.
+  - destruct (parse_float o s) as [f|]; [|discriminate]. injection H as <-. exists f. reflexivity.
+Qed.
+
 Theorem conv_float_nonfinite_refuted : exists o v x,
   conv_float o v = Ok (Some x) /\ eval_code (code x) = None.
+Proof.
+  exists dummy_oracles, (JStr [105;110;102]),
+    {| code := [105;110;102]; raw := JStr [105;110;102] |}.
+  split; [reflexivity | vm_compute; reflexivity].
+Qed.
 
-(* enum kind: an accepted default is a member whose stored value is the default *)
+(* ================= enum kinds ================= *)
+
+Lemma inverse_lookup_In ev : forall ms k, inverse_lookup ev ms = Some k ->
+  exists ev', In (k, ev') ms /\ evalue_eqb ev ev' = true.
+Proof.
+  induction ms as [|[k' v'] ms IH]; intros k H; cbn [inverse_lookup] in H; [discriminate|].
+  destruct (inverse_lookup ev ms) as [k2|] eqn:E.
+  - injection H as <-. destruct (IH _ eq_refl) as (ev' & Hin & He).
+    exists ev'. split; [right; exact Hin | exact He].
+  - destruct (evalue_eqb ev v') eqn:E2; [|discriminate]. injection H as <-.
+    exists v'. split; [left; reflexivity | exact E2].
+Qed.
+
+Lemma evalue_eqb_int z ev : evalue_eqb (EInt z) ev = true -> ev = EInt z.
+Proof. destruct ev as [z'|s']; cbn [evalue_eqb]; [|discriminate]. intros H. apply Z.eqb_eq in H. now subst. Qed.
+Lemma evalue_eqb_str s ev : evalue_eqb (EStr s) ev = true -> ev = EStr s.
+Proof. destruct ev as [z'|s']; cbn [evalue_eqb]; [discriminate|]. intros H. apply str_eqb_eq in H. now subst. Qed.
+
 Theorem conv_enum_sound : forall vt cls ms v x,
   conv_enum vt cls ms v = Ok (Some x) ->
   exists k ev, code x = cls ++ [46] ++ k /\ In (k, ev) ms /\
@@ -46,7 +301,20 @@ Theorem conv_enum_sound : forall vt cls ms v x,
     | JStr s, EStr s' => s = s'
     | _, _ => False
     end.
-(* literal enum: accepted iff listed *)
+Proof.
+  intros vt cls ms v x H. unfold conv_enum in H.
+  destruct v as [|b|z|f|s|s], vt; try discriminate.
+  - destruct (inverse_lookup _ ms) as [k|] eqn:E; [|discriminate]. injection H as <-.
+    apply inverse_lookup_In in E as (ev' & Hin & He). apply evalue_eqb_int in He. subst ev'.
+    exists k, (EInt (if b then 1 else 0)%Z). cbn [code]. auto.
+  - destruct (inverse_lookup _ ms) as [k|] eqn:E; [|discriminate]. injection H as <-.
+    apply inverse_lookup_In in E as (ev' & Hin & He). apply evalue_eqb_int in He. subst ev'.
+    exists k, (EInt z). cbn [code]. auto.
+  - destruct (inverse_lookup _ ms) as [k|] eqn:E; [|discriminate]. injection H as <-.
+    apply inverse_lookup_In in E as (ev' & Hin & He). apply evalue_eqb_str in He. subst ev'.
+    exists k, (EStr s). cbn [code]. auto.
+Qed.
+
 Theorem conv_litenum_sound : forall vt vals v x,
   conv_litenum vt vals v = Ok (Some x) ->
   exists ev, In ev vals /\
@@ -56,23 +324,155 @@ Theorem conv_litenum_sound : forall vt vals v x,
     | JStr s, EStr s' => s = s'
     | _, _ => False
     end.
-(* const: an accepted default equals the constant (as a Value: same code, same raw value) *)
+Proof.
+  intros vt vals v x H. unfold conv_litenum in H.
+  destruct v as [|b|z|f|s|s], vt; try discriminate.
+  - destruct (existsb _ vals) eqn:E; [|discriminate].
+    apply existsb_exists in E as (ev' & Hin & He). apply evalue_eqb_int in He. subst ev'.
+    exists (EInt (if b then 1 else 0)%Z). auto.
+  - destruct (existsb _ vals) eqn:E; [|discriminate].
+    apply existsb_exists in E as (ev' & Hin & He). apply evalue_eqb_int in He. subst ev'.
+    exists (EInt z). auto.
+  - destruct (existsb _ vals) eqn:E; [|discriminate].
+    apply existsb_exists in E as (ev' & Hin & He). apply evalue_eqb_str in He. subst ev'.
+    exists (EStr s). auto.
+Qed.
+
 Theorem conv_const_sound : forall cv v x,
   conv_const cv v = Ok (Some x) -> exists c, conv_any cv = Ok (Some c) /\ value_eqb x c = true.
+Proof.
+  intros cv v x H. unfold conv_const in H.
+  destruct (conv_any v) as [[x'|]| |]; try discriminate.
+  destruct (conv_any cv) as [[c|]| |]; try discriminate.
+  destruct (value_eqb x' c) eqn:E; [|discriminate].
+  injection H as <-. exists c. auto.
+Qed.
 
-(* union: the accepted default is the result of the FIRST member that does not reject it *)
+(* ================= union ================= *)
+
+Definition union_go (o : oracles) (v : jval) :=
+  fix go (ms : list ckind) (last : result) {struct ms} : result :=
+    match ms with
+    | [] => last
+    | m :: ms' => let r := convert_value o m v in
+                  if is_err r then go ms' r else r
+    end.
+
+Lemma convert_union_eq o ms v :
+  convert_value o (CUnion ms) v = match v with JNull => Ok None | _ => union_go o v ms Err end.
+Proof. destruct v; reflexivity. Qed.
+
+Lemma is_err_true r : is_err r = true -> r = Err.
+Proof. destruct r; try discriminate. reflexivity. Qed.
+
+Lemma union_go_first o v : forall ms last r,
+  union_go o v ms last = r -> r <> Err ->
+  (r = last /\ forall m', In m' ms -> convert_value o m' v = Err) \/
+  exists pre m post, ms = pre ++ m :: post /\ convert_value o m v = r /\
+    forall m', In m' pre -> convert_value o m' v = Err.
+Proof.
+  induction ms as [|m ms IH]; intros last r H Hr.
+  - left. split; [symmetry; exact H | intros m' []].
+  - cbn [union_go] in H. cbv zeta in H.
+    destruct (is_err (convert_value o m v)) eqn:E.
+    + apply is_err_true in E.
+      destruct (IH _ _ H Hr) as [[Hl _]|(pre & m0 & post & Hms & Hm & Hpre)].
+      * congruence.
+      * right. exists (m :: pre), m0, post. split; [rewrite Hms; reflexivity|].
+        split; [exact Hm|]. intros m' [<-|Hin]; [exact E | apply Hpre; exact Hin].
+    + right. exists [], m, ms. split; [reflexivity|]. split; [exact H | intros m' []].
+Qed.
+
 Theorem conv_union_first : forall o ms v r,
   v <> JNull -> convert_value o (CUnion ms) v = r -> r <> Err ->
   exists pre m post, ms = pre ++ m :: post /\ convert_value o m v = r /\
     forall m', In m' pre -> convert_value o m' v = Err.
+Proof.
+  intros o ms v r Hv H Hr. rewrite convert_union_eq in H.
+  assert (H' : union_go o v ms Err = r) by (destruct v; [congruence | exact H ..]).
+  destruct (union_go_first o v ms Err r H' Hr) as [[Hl _]|Hex]; [congruence | exact Hex].
+Qed.
 
-(* C14: member tables *)
+(* ================= C14: member tables ================= *)
+
 Definition keys (m : list (str * evalue)) : list str := map fst m.
-Theorem values_from_list_keys_nodup : forall vs m, values_from_list vs = Some m -> NoDup (keys m).
+
+Lemma keys_cons k v m : keys ((k, v) :: m) = k :: keys m.
+Proof. reflexivity. Qed.
+
+Lemma assoc_mem_cons k k' v' m : assoc_mem k ((k', v') :: m) = str_eqb k k' || assoc_mem k m.
+Proof. reflexivity. Qed.
+
+Lemma assoc_set_cons k v k' v' m :
+  assoc_set k v ((k', v') :: m) = if str_eqb k k' then (k', v) :: m else (k', v') :: assoc_set k v m.
+Proof. reflexivity. Qed.
+
+Lemma assoc_set_keys k v : forall m,
+  keys (assoc_set k v m) = if assoc_mem k m then keys m else keys m ++ [k].
+Proof.
+  induction m as [|[k' v'] m IH]; [reflexivity|].
+  rewrite assoc_set_cons, assoc_mem_cons.
+  destruct (str_eqb k k'); cbn [orb]; [reflexivity|].
+  rewrite !keys_cons, IH. destruct (assoc_mem k m); reflexivity.
+Qed.
+
+Lemma assoc_mem_false k : forall m, assoc_mem k m = false -> ~ In k (keys m).
+Proof.
+  induction m as [|[k' v'] m IH]; intros H; [intros []|].
+  rewrite assoc_mem_cons in H. apply orb_false_iff in H as [H1 H2].
+  rewrite keys_cons. intros [E|Hin].
+  - subst k'. assert (X : str_eqb k k = true) by (apply str_eqb_eq; reflexivity). congruence.
+  - exact (IH H2 Hin).
+Qed.
+
+Lemma NoDup_snoc (A : Type) (l : list A) (a : A) : NoDup l -> ~ In a l -> NoDup (l ++ [a]).
+Proof.
+  induction l as [|b l IH]; intros Hn Ha; cbn [app].
+  - constructor; [intros [] | constructor].
+  - inversion Hn as [|b' l' Hb Hl]; subst. constructor.
+    + intros Hin. apply in_app_or in Hin as [Hin|[E|[]]]; [exact (Hb Hin)|].
+      subst. apply Ha. left; reflexivity.
+    + apply IH; [exact Hl|]. intros Hin. apply Ha. right; exact Hin.
+Qed.
+
+Lemma assoc_set_nodup k v m : NoDup (keys m) -> NoDup (keys (assoc_set k v m)).
+Proof.
+  intros H. rewrite assoc_set_keys. destruct (assoc_mem k m) eqn:E; [exact H|].
+  apply NoDup_snoc; [exact H | apply assoc_mem_false; exact E].
+Qed.
+
+(* what can be found in a table after assoc_set *)
+Lemma assoc_set_In k v : forall m k' v', In (k', v') (assoc_set k v m) -> In (k', v') m \/ (k' = k /\ v' = v).
+Proof.
+  induction m as [|[k0 v0] m IH]; intros k' v' H.
+  - destruct H as [H|[]]. injection H as <- <-. right; auto.
+  - rewrite assoc_set_cons in H. destruct (str_eqb k k0) eqn:E.
+    + apply str_eqb_eq in E. subst k0. destruct H as [H|H].
+      * injection H as <- <-. right; auto.
+      * left; right; exact H.
+    + destruct H as [H|H]; [left; left; exact H|].
+      destruct (IH _ _ H) as [H'|H']; [left; right; exact H' | right; exact H'].
+Qed.
+
+Lemma assoc_set_new k v : forall m, In (k, v) (assoc_set k v m).
+Proof.
+  induction m as [|[k0 v0] m IH]; [left; reflexivity|].
+  rewrite assoc_set_cons. destruct (str_eqb k k0) eqn:E.
+  - apply str_eqb_eq in E. subst k0. left; reflexivity.
+  - right; exact IH.
+Qed.
+
+Lemma assoc_set_other k v : forall m k' v', In (k', v') m -> k' <> k -> In (k', v') (assoc_set k v m).
+Proof.
+  induction m as [|[k0 v0] m IH]; intros k' v' H Hne; [destruct H|].
+  rewrite assoc_set_cons. destruct (str_eqb k k0) eqn:E.
+  - apply str_eqb_eq in E. subst k0. destruct H as [H|H].
+    + injection H as <- <-. congruence.
+    + right; exact H.
+  - destruct H as [H|H]; [left; exact H | right; apply IH; assumption].
+Qed.
+
 Definition esc_ev (e : evalue) : evalue := match e with EInt z => EInt z | EStr s => EStr (escape_dq s) end.
-(* no invented members: every member value is (the escaped spelling of) a declared value *)
-Theorem values_from_list_members_declared : forall vs m k ev,
-  values_from_list vs = Some m -> In (k, ev) m -> exists v, In v vs /\ ev = esc_ev v.
 
 (* the sanitised key of a value at index i, as values_from_list computes it *)
 Definition member_key (i : N) (e : evalue) : str :=
@@ -83,13 +483,122 @@ Definition member_key (i : N) (e : evalue) : str :=
                                  | c :: _ => if c_isalpha c then upper s else s_VALUE_ ++ dec_N i
                                  | [] => s_VALUE_ ++ dec_N i end))
   end.
+
+(* one step of the loop, when it does not raise *)
+Lemma go_step i e vs out m : values_from_list_go i (e :: vs) out = Some m ->
+  values_from_list_go (N.succ i) vs (assoc_set (member_key i e) (esc_ev e) out) = Some m.
+Proof.
+  destruct e as [z|s]; cbn [values_from_list_go member_key esc_ev]; intros H.
+  - destruct z; exact H.
+  - destruct (assoc_mem _ out); [discriminate | exact H].
+Qed.
+
+Lemma go_keys_nodup : forall vs i out m,
+  NoDup (keys out) -> values_from_list_go i vs out = Some m -> NoDup (keys m).
+Proof.
+  induction vs as [|e vs IH]; intros i out m Hn H.
+  - cbn [values_from_list_go] in H. injection H as <-. exact Hn.
+  - apply go_step in H. apply (IH _ _ _ (assoc_set_nodup _ _ _ Hn) H).
+Qed.
+
+Theorem values_from_list_keys_nodup : forall vs m, values_from_list vs = Some m -> NoDup (keys m).
+Proof.
+  intros vs m H. unfold values_from_list in H. apply (go_keys_nodup vs 0 [] m); [constructor | exact H].
+Qed.
+
+Lemma go_members (P : evalue -> Prop) : forall vs i out m,
+  (forall k ev, In (k, ev) out -> P ev) -> (forall v, In v vs -> P (esc_ev v)) ->
+  values_from_list_go i vs out = Some m -> forall k ev, In (k, ev) m -> P ev.
+Proof.
+  induction vs as [|e vs IH]; intros i out m Hout Hvs H.
+  - cbn [values_from_list_go] in H. injection H as <-. exact Hout.
+  - apply go_step in H. apply (IH _ _ _) with (3 := H).
+    + intros k ev Hin. apply assoc_set_In in Hin as [Hin|[_ ->]].
+      * apply (Hout _ _ Hin).
+      * apply Hvs. left; reflexivity.
+    + intros v Hv. apply Hvs. right; exact Hv.
+Qed.
+
+(* no invented members: every member value is (the escaped spelling of) a declared value *)
+Theorem values_from_list_members_declared : forall vs m k ev,
+  values_from_list vs = Some m -> In (k, ev) m -> exists v, In v vs /\ ev = esc_ev v.
+Proof.
+  intros vs m k ev H Hin. unfold values_from_list in H.
+  apply (go_members (fun ev => exists v, In v vs /\ ev = esc_ev v) vs 0 [] m) with (k := k);
+    [ intros k' ev' [] | | exact H | exact Hin ].
+  intros v Hv. exists v. auto.
+Qed.
+
 Fixpoint member_keys_from (i : N) (vs : list evalue) : list str :=
   match vs with [] => [] | e :: vs' => member_key i e :: member_keys_from (N.succ i) vs' end.
+
+Lemma go_complete : forall vs i out m,
+  NoDup (member_keys_from i vs) ->
+  (forall k, In k (keys out) -> ~ In k (member_keys_from i vs)) ->
+  values_from_list_go i vs out = Some m ->
+  (forall k ev, In (k, ev) out -> In (k, ev) m) /\
+  (forall j e, nth_error vs j = Some e -> In (member_key (i + N.of_nat j) e, esc_ev e) m).
+Proof.
+  induction vs as [|e vs IH]; intros i out m Hnd Hdisj H.
+  - cbn [values_from_list_go] in H. injection H as <-. split; [auto|].
+    intros [|j] e Hj; discriminate Hj.
+  - apply go_step in H. cbn [member_keys_from] in Hnd, Hdisj.
+    inversion Hnd as [|k0 l0 Hk0 Hnd']; subst.
+    destruct (IH (N.succ i) (assoc_set (member_key i e) (esc_ev e) out) m Hnd') as [Hsub Hidx]; [ | exact H | ].
+    { intros k Hk Hin. rewrite assoc_set_keys in Hk.
+      destruct (assoc_mem (member_key i e) out).
+      - apply (Hdisj k Hk). right; exact Hin.
+      - apply in_app_or in Hk as [Hk|[<-|[]]].
+        + apply (Hdisj k Hk). right; exact Hin.
+        + exact (Hk0 Hin). }
+    split.
+    + intros k ev Hin. apply Hsub. apply assoc_set_other; [exact Hin|].
+      intros ->. apply (Hdisj (member_key i e)); [|left; reflexivity].
+      change (In (fst (member_key i e, ev)) (keys out)). apply in_map. exact Hin.
+    + intros [|j] e' Hj.
+      * cbn [nth_error] in Hj. injection Hj as <-.
+        replace (i + N.of_nat 0) with i by lia. apply Hsub. apply assoc_set_new.
+      * cbn [nth_error] in Hj.
+        replace (i + N.of_nat (S j)) with (N.succ i + N.of_nat j) by lia.
+        apply Hidx. exact Hj.
+Qed.
+
 (* guard g_enum_sanitised_distinct: the stored keys are pairwise distinct; then every declared value has its member *)
 Theorem values_from_list_complete : forall vs m,
   NoDup (member_keys_from 0 vs) -> values_from_list vs = Some m ->
   forall i e, nth_error vs i = Some e -> In (member_key (N.of_nat i) e, esc_ev e) m.
+Proof.
+  intros vs m Hnd H i e Hi. unfold values_from_list in H.
+  destruct (go_complete vs 0 [] m Hnd) as [_ Hidx]; [intros k [] | exact H | ].
+  apply (Hidx i e Hi).
+Qed.
+
 (* without the guard a declared value can vanish silently: the values a b and a-b *)
 Theorem enum_silent_merge_refuted : exists vs m e,
   values_from_list vs = Some m /\ In e vs /\ ~ In (esc_ev e) (map snd m).
-*)
+Proof.
+  exists [EStr [97;32;98]; EStr [97;45;98]], [([65;95;66], EStr [97;45;98])], (EStr [97;32;98]).
+  split; [vm_compute; reflexivity|]. split; [left; reflexivity|].
+  intros [H|[]]. discriminate H.
+Qed.
+
+Print Assumptions parse_int_dec_Z.
+Print Assumptions dec_Z_inj.
+Print Assumptions int_code_evals.
+Print Assumptions conv_int_sound.
+Print Assumptions conv_int_complete.
+Print Assumptions conv_int_crash_refuted.
+Print Assumptions conv_bool_sound.
+Print Assumptions conv_bool_complete.
+Print Assumptions conv_string_sound.
+Print Assumptions conv_string_dq_refuted.
+Print Assumptions conv_float_token.
+Print Assumptions conv_float_nonfinite_refuted.
+Print Assumptions conv_enum_sound.
+Print Assumptions conv_litenum_sound.
+Print Assumptions conv_const_sound.
+Print Assumptions conv_union_first.
+Print Assumptions values_from_list_keys_nodup.
+Print Assumptions values_from_list_members_declared.
+Print Assumptions values_from_list_complete.
+Print Assumptions enum_silent_merge_refuted.
